@@ -204,6 +204,25 @@ class C15(Check):
             else:
                 self.violated("Z1", rel, q, "iterate-advanced", node, "the reference iterate / the time is not advanced each step: convergence is tested against a stale state",
                               witness="any model: the first small step relative to the INITIAL state never occurs, or the same time is integrated repeatedly")
+        # the stepper starts from the current state, and every iteration integrates to a later time
+        init_calls = [c for c in walk_no_nested(fn) if isinstance(c, ast.Call) and isinstance(c.func, ast.Attribute) and c.func.attr == "set_initial_value"]
+        if init_calls and [norm(a_) for a_ in init_calls[0].args] == ["self.y0", "self.t0"] and not init_calls[0].keywords:
+            self.holds("Z1", rel, q, "starts-at-current-state", init_calls[0], "stepper initialised with (self.y0, self.t0)")
+        else:
+            self.violated("Z1", rel, q, "starts-at-current-state", init_calls[0] if init_calls else fn, "the stepper is not initialised with the current state and time (self.y0, self.t0)",
+                          witness="the search starts from another state / time than the one reached: the reported steady state belongs to another trajectory")
+        import re as _re
+
+        times = []
+        for c_ in sorted({c[0] for _, c in convs if c[0] != "?"}, key=len):
+            m_ = _re.search(r"\.integrate\((.*?)\)(?:, dtype=float\))?$", c_)
+            times.append(m_.group(1) if m_ else c_)
+        fwd = bool(times) and times[0] in ("self.t0 + step_size", "step_size + self.t0") and all(times[i + 1] == times[i] + " + step_size" for i in range(len(times) - 1))
+        if fwd:
+            self.holds("Z1", rel, q, "time-advances", node, f"iteration k integrates to self.t0 + k*step_size ({times[-1]})")
+        else:
+            self.violated("Z1", rel, q, "time-advances", node, f"the search does not integrate forward in time by step_size per iteration (times: {times})",
+                          witness="t decreases or stands still: the stepper runs backwards / re-integrates the same point and the change test is meaningless")
         # Z3: the previous iterate must not be the stepper's own buffer: the stepper's output is copied where it is taken
         COPY = ("np.array", "numpy.array", "np.copy", "copy.deepcopy", "copy.copy", "list", "tuple")
         curs = {c[0] for _, c in convs if c[0] != "?"}
@@ -246,6 +265,29 @@ class C15(Check):
         else:
             self.violated("Z2", SIM, "Simulator._handle_simulation_results", "failure-recorded", h, "a failure value is not recorded in _errors",
                           witness="NoSteadyState is dropped: get_result() reports IntegrationFailure or an older frame")
+        gr = sim.func("Simulator.get_result")
+        gp = [st for st, _ in SymInterp().run_function(gr, Sym()).returns]
+        ok_g = bool(gp)
+        seen_sim = False
+        for st in gp:
+            rv = [e[1] for e in st.events if e[0] == "return"]
+            rv = rv[-1] if rv else "None"
+            has_err = any(c == "len(self._errors) > 0" and p_ for c, p_ in st.conds)
+            none_v = any(c == "self.variables is None" and p_ for c, p_ in st.conds)
+            none_p = any(c == "self.simulation_parameters is None" and p_ for c, p_ in st.conds)
+            if has_err:
+                continue
+            if none_v or none_p:
+                ok_g = ok_g and rv.startswith("Result(") and "Simulation(" not in rv
+            else:
+                seen_sim = True
+                ok_g = ok_g and rv == "Result(Simulation(model=self.model, raw_variables=self.variables, raw_parameters=self.simulation_parameters))" \
+                    and (("self.variables is None", False) in st.conds) and (("self.simulation_parameters is None", False) in st.conds)
+        if ok_g and seen_sim:
+            self.holds("Z2", SIM, "Simulator.get_result", "frames-iff-present", gr, "a Simulation is returned exactly when frames and parameter records exist; otherwise a failure value")
+        else:
+            self.violated("Z2", SIM, "Simulator.get_result", "frames-iff-present", gr, "get_result does not return the stored frames exactly when they exist",
+                          witness="a finished simulation is reported as IntegrationFailure, or a Simulation is built from None")
         g = sim.func("Simulator.get_result")
         body = strip_docstring(g.body)
         first = body[0]
